@@ -163,7 +163,10 @@ Definition obj_issubclass (h : heap) (c : pyval) (ks : list pystr) : res bool :=
       if pystr_eqb t ref_tag
       then Ok (existsb (fun k => match h name (issubclass_attr k) with Some b => py_truthy b | None => false end) ks)
       else Raise Unmodelled
-  | PStruct _ _ | PEnum _ _ _ => Raise Unmodelled
+  | PStruct _ attrs =>
+      (* a class object given with its attributes (the metaclass instance of Ser/MappersSrcProofs.v) *)
+      Ok (existsb (fun k => match alist_get attrs (issubclass_attr k) with Some b => py_truthy b | None => false end) ks)
+  | PEnum _ _ _ => Raise Unmodelled
   | _ => Raise TypeError
   end.
 
